@@ -93,14 +93,16 @@ def handle (fields : List String) : String :=
       match parsePlatform t with
       | .ok p => "ok\t" ++ p.str
       | .error .valueError => "raise:ValueError"
-      | .error .unmodelled => "unmodelled"
+      | .error .typeError => "raise:TypeError"
+      | .error .platformError => "raise:PlatformError"
   | ["p.tags", t] =>
       match parsePlatform t with
       | .ok p => (match compatibleTags p with
           | some l => ",".intercalate (l.map PTag.str)
           | none => "raise:PlatformError")
       | .error .valueError => "raise:ValueError"
-      | .error .unmodelled => "unmodelled"
+      | .error .typeError => "raise:TypeError"
+      | .error .platformError => "raise:PlatformError"
   | ["w.parse", f] =>
       match parseWheelTags f.toList with
       | .ok (a, b, c) => "ok\t" ++ showChars a ++ "\t" ++ showChars b ++ "\t" ++ showChars c
